@@ -184,7 +184,7 @@ def slotStr (o : OutPoint) : Slot → Option String
 def dumpStr (m : State) (known : List OutPoint) : String :=
   let c := join "," (known.filterMap (fun o => slotStr o (m.cache.get o)))
   let d := join "," (known.filterMap (fun o => (m.db o).map (fun e => s!"{opStr o}:{entryStr e}")))
-  s!"c={c};d={d};l={m.lastFlush};m={m.marker}"
+  s!"c={c};d={d};l={m.lastFlush};m={m.marker};t={m.totalTxns}"
 
 def parseMode? (c : Char) : Option Mode :=
   if c == 'r' then some .required else if c == 'p' then some .periodic
